@@ -140,6 +140,9 @@ impl BiStream {
     }
 
     pub async fn finish(&mut self) -> Result<()> {
+        // Frames that have been started but not flushed still sit in the framed writer's
+        // buffer; finishing the QUIC stream underneath it would discard them
+        SinkExt::flush(&mut self.write).await?;
         self.write.finish().await.map_err(QuicError::WriteError)?;
         Ok(())
     }
